@@ -136,6 +136,8 @@ EmitFindings(r, k, e, c, bytes, lx, step, g2, isBody, more) ==
        THEN <<V(r, k, "C17", "simulated memo differs from the reference memo")>> ELSE <<>>)
    \o (IF c.rate = 0 /\ (e.mu # <<>> \/ e.rw # <<>> \/ e.rwn = 1)
        THEN <<V(r, k, "C15", "value mutated or bytes rewritten at rate 0")>> ELSE <<>>)
+   \o (IF Len(e.mu) > 1
+       THEN <<V(r, k, "C15", "more than one mutator changed the value of one opcode (first applicable mutator must win)")>> ELSE <<>>)
    \o (IF isBody /\ ~more /\ c.rate = 2 /\ e.op >= 0 /\ ValueClass(e.op) # 0
           /\ FirstApplicable(c.muts, ValueClass(e.op)) # {}
           /\ ~(0 \in FirstApplicable(c.muts, ValueClass(e.op)) /\ ~\E j \in 1..Len(e.mu) : e.mu[j][1] = ValueClass(e.op))
